@@ -104,5 +104,13 @@ NeverFreshAfterRandom    == NeverFreshAfterGarbage("random")
 NeverFreshAfterTruncated == NeverFreshAfterGarbage("truncated")
 NeverFreshAfterEmpty     == NeverFreshAfterGarbage("empty")
 NeverFreshAfterWrongType == NeverFreshAfterGarbage("wrongtype")
+\* a member with a live metric is dropped from the peerset and re-admitted by the next peerset change
+\* (two membership changes back to back; LatestMetrics is read after each of them)
+ShrinkThenGrow ==
+    /\ act.a = "peerset" /\ act.kind = "set" /\ pact.a = "peerset" /\ pact.kind = "set"
+    /\ \E nm \in NAMES, p \in PEERS :
+          /\ p \in act.set /\ p \notin pact.set
+          /\ s.win[nm][p] # <<>> /\ Last(s.win[nm][p]).valid /\ Last(s.win[nm][p]).exp = FAR
+NeverShrinkThenGrow == ~ShrinkThenGrow
 NeverWrapExpired == ~(\E nm \in NAMES, p \in PEERS : obs.n[nm][p] = W /\ s.cnt[nm][p] > W /\ Len(obs.alerts) > 0)
 =============================================================================
